@@ -1,5 +1,5 @@
 (* Properties/C20.v — Front-ends expose exactly the torrent's files. *)
-From Storrent Require Import Base.Bytes Base.Bencode Model.Wire Model.Torfile Model.Namespace Proof.Namespace.
+From Storrent Require Import Base.Bytes Base.Bencode Model.Wire Model.Torfile Model.Namespace Proof.Namespace Proof.FuseWalk.
 Open Scope N_scope.
 
 (* the HTTP file view resolves a path to the offset and length of a file of the table
@@ -34,7 +34,32 @@ Theorem c20_listing_count : forall files dir,
 Proof. exact listing_length. Qed.
 Print Assumptions c20_listing_count.
 
-(* PARTIAL: the FUSE clauses (walking a path component by component resolves exactly
-   as spec_resolve says, ReadDirAll names exactly the next components of the non-padding
-   files) are judged on every run by the monitor of Check/NamespaceCheck.v against the
-   specification; they are not yet theorems about dir_lookup / dir_readdir. *)
+(* FUSE.  Walking a path of valid names (non-empty, no '/', not "." or "..": what the kernel
+   passes) component by component through directory.Lookup from the torrent's directory node,
+   for every sane table (valid components, no path equal to or a proper prefix of another — what
+   MetadataComplete's layout produces for real torrents): the walk ends in a file node named
+   by the path exactly when the table has a file with that path, in a directory node exactly
+   when the path is a proper prefix of some file's path, and fails (ENOENT) otherwise. *)
+Theorem c20_fuse_walk : forall files p,
+  sane files = true -> forallb valid_component p = true -> p <> [] ->
+  walk files (FDir []) p = expect files p.
+Proof. exact fuse_walk. Qed.
+Print Assumptions c20_fuse_walk.
+
+(* ... the file node's size is that file's length ... *)
+Theorem c20_fuse_attr : forall files total p f0, Forall okc p ->
+  file_attr (f0 :: files) total (join p) =
+  match find (fun f => path_eqb p (f_path f)) (f0 :: files) with Some f => Some (f_len f) | None => None end.
+Proof. exact fuse_attr. Qed.
+Print Assumptions c20_fuse_attr.
+
+(* ... and ReadDirAll of the directory d lists a file entry for exactly the non-padding files
+   directly in d, a directory entry for exactly the next components of the non-padding files
+   deeper down, and no directory twice (for ANY table). *)
+Theorem c20_fuse_readdir : forall files d name isdir, Forall okc d ->
+  (In (name, isdir) (dir_readdir files (join d)) <->
+   exists f, In f files /\ f_pad f = false /\
+             if isdir then exists x rest, f_path f = d ++ name :: x :: rest else f_path f = d ++ [name]) /\
+  NoDup (map fst (filter snd (dir_readdir files (join d)))).
+Proof. exact fuse_readdir. Qed.
+Print Assumptions c20_fuse_readdir.
